@@ -183,7 +183,11 @@ func (e *Environment) SaveGlobals(to io.Writer, maxValueLen int) (int, error) {
 			f := v.(Function)
 			if f.Name != nil {
 				// Named function inspect is ready for definition, eg func y(a,b){a+b}.
-				_, err := fmt.Fprintf(to, "%s\n", f.Inspect())
+				def := f.Inspect()
+				if f.Name.Literal() != k {
+					def = k + "=" + def // the function bound under another name (g = f): that binding is g's.
+				}
+				_, err := fmt.Fprintf(to, "%s\n", def)
 				if err != nil {
 					return n, err
 				}
